@@ -971,8 +971,10 @@ fn insert_generic(sim: &Sim, id: Id, fd: FdSpec, interest: u8, mode: u8, keep: b
             if !g.released || s.indeterminate {
                 return;
             }
-            if st.srcs.values().any(|o2| o2.inserted && matches!(&o2.k, K::Generic(g2) if Rc::ptr_eq(&g2.own.0, &g.own.0))) {
-                return; // already re-inserted by somebody else
+            // already re-inserted by somebody else - or by somebody who removed itself in its own
+            // callback, which is still running (its fd leaves the poller when that ends)
+            if st.srcs.values().any(|o2| (o2.inserted || o2.in_processing > 0) && matches!(&o2.k, K::Generic(g2) if Rc::ptr_eq(&g2.own.0, &g.own.0))) {
+                return;
             }
             natural_fail = g.unusable;
             (g.own.clone(), None, g.fdkind)
@@ -1066,7 +1068,13 @@ fn reinsert_kept(sim: &Sim, id: Id) {
             return;
         }
         match &s.k {
-            K::Generic(g) if !g.released && !g.unusable => g.disp.clone(),
+            K::Generic(g) if !g.released && !g.unusable => {
+                // two live sources never share an fd (that would be the program's bug)
+                if st.srcs.iter().any(|(i, o2)| *i != id && (o2.inserted || o2.in_processing > 0) && matches!(&o2.k, K::Generic(g2) if Rc::ptr_eq(&g2.own.0, &g.own.0))) {
+                    return;
+                }
+                g.disp.clone()
+            }
             _ => None,
         }
     };
@@ -1237,6 +1245,7 @@ pub fn env_allowed(op: &Op) -> bool {
             | Op::PingChild(..)
             | Op::PeerWriteChild(..)
             | Op::Raise(_)
+            | Op::Kill(_)
     )
 }
 
